@@ -149,13 +149,11 @@ def judge(u, r):
     missing = [s for s in want if not any(last(s[0]) == last(g[0]) and last(s[1]) == last(g[1]) for g in got)]
     if missing:
         return dict(verdict="vacuous", reason="expected stub not applied: %s" % (missing,), failed=[], counts=counts)
-    if u.ncovers and len(covers) < 1:
-        return dict(verdict="vacuous", reason="no cover check generated", failed=[], counts=counts)
+    if len(covers) < 1:
+        return dict(verdict="vacuous", reason="unit has no kani::cover! vacuity guard (no cover check in the table)", failed=[], counts=counts)
     bad_cov = [c for c in covers if stat(c) != "SATISFIED"]
     if bad_cov:
         return dict(verdict="vacuous", reason="cover not satisfied: %s (%s)" % (bad_cov[0].get("description"), stat(bad_cov[0])), failed=[], counts=counts)
-    if u.ncovers == 0:
-        return dict(verdict="vacuous", reason="unit has no kani::cover! vacuity guard", failed=[], counts=counts)
     if counts["success"] == 0:
         return dict(verdict="vacuous", reason="zero obligations", failed=[], counts=counts)
     if st.lower() not in ("success", "successful"):
